@@ -72,7 +72,11 @@ def parseEv : List String → Option Ev
   | ["consumerDown", c, "ok"] => c.toNat?.map fun c => .consumerDown c true
   | ["consumerDown", c, "err"] => c.toNat?.map fun c => .consumerDown c false
   | ["consumerErr", c, e] => do let c ← c.toNat?; let e ← parseErr e; some (.consumerErr c e)
-  | ["fire", i] => i.toNat?.map .fire
+  | ["consumerQuirk", c, "none"] => c.toNat?.map fun c => .consumerQuirk c .none
+  | ["consumerQuirk", c, "raises"] => c.toNat?.map fun c => .consumerQuirk c .shutdownRaises
+  | ["consumerQuirk", c, "fails"] => c.toNat?.map fun c => .consumerQuirk c .shutdownFails
+  | ["fire", i] => i.toNat?.map fun i => .fire i none
+  | ["fire", i, d] => do let i ← i.toNat?; let d ← parseRat d; some (.fire i (some d))
   | ["advance", d] => (parseRat d).map .advance
   | _ => none
 
